@@ -37,9 +37,14 @@ class SyncExecutor:
         return False
 
     def submit(self, fn, *a, **k):
+        # arguments and results cross a process boundary in the real pool:
+        # emulate it with a pickle round trip so that state shared by
+        # reference in the serial path is *not* shared here
+        import pickle
         f = Future()
         try:
-            f.set_result(fn(*a, **k))
+            fn, a, k = pickle.loads(pickle.dumps((fn, a, k)))
+            f.set_result(pickle.loads(pickle.dumps(fn(*a, **k))))
         except BaseException as exc:  # noqa: BLE001
             f.set_exception(exc)
         return f
@@ -56,14 +61,27 @@ def render(case):
     if case['noise_sigma'] > 0:
         img += noise(case['noise_seed'], (ny, nx), case['noise_sigma'])
     img += case.get('pedestal', 0.0)
+    if case.get('oversub'):
+        # locally over-subtracted background: the left half sits below zero
+        img[:, :nx // 2] -= case['oversub']
     return img
+
+
+def _threshold(case, img):
+    thr = case['thr'] + case.get('pedestal', 0.0)
+    if case.get('oversub'):
+        ny, nx = img.shape
+        t = np.full(img.shape, float(thr))
+        t[:, :nx // 2] = thr - case['oversub'] - 0.3
+        return t
+    return thr
 
 
 def _segm(case, img):
     from photutils.segmentation import detect_sources
     with warnings.catch_warnings():
         warnings.simplefilter('ignore')
-        segm = detect_sources(img, case['thr'] + case.get('pedestal', 0.0),
+        segm = detect_sources(img, _threshold(case, img),
                               case['det_npixels'],
                               connectivity=case['conn'])
     if segm is None:
@@ -146,6 +164,8 @@ def check_refine(case, ctx):
     ctx.event('relabel_%s' % case['relabel'])
     if case.get('gap'):
         ctx.event('gap_' + case['gap'])
+    if case.get('oversub'):
+        ctx.event('oversubtracted_half')
     if case.get('first_pass'):
         ctx.event('input_already_deblended')
         require(True, 'x')
@@ -239,7 +259,7 @@ def check_refine(case, ctx):
                               deblend=True, nlevels=case['nlevels'],
                               contrast=case['contrast'], mode=case['mode'],
                               relabel=True, progress_bar=False)
-            out = sf(img, case['thr'] + case.get('pedestal', 0.0))
+            out = sf(img, _threshold(case, img))
         ctx.event('sourcefinder_compared')
         if out is None or not np.array_equal(out.data, ref.data):
             raise Violation('sourcefinder_differs',
@@ -329,6 +349,11 @@ def refine_cases(draw):
                       for _ in range(nsched)],
         'real_pool': draw(st.sampled_from([None, None, None, 2, 3])),
     }
+    if case['pedestal'] == 3.0 and draw(st.booleans()):
+        # detection threshold just below zero: some parents contain
+        # non-positive pixels (mode falls back to linear for them only)
+        case['pedestal'] = -case['thr'] - draw(st.sampled_from([0.3, 0.1, 0.03]))
+    case['oversub'] = draw(st.sampled_from([0.0, 0.0, 0.0, 1.5, 4.0]))
     if case['npixels'] == -1:      # same npixels for detection and deblending
         case['npixels'] = case['det_npixels']
     return case
